@@ -163,9 +163,17 @@ func TestC19_Dump(t *testing.T) {
 		}
 	}
 	rapid.Check(t, func(t *rapid.T) {
-		e := gen.FreeExpr(t, rapid.IntRange(1, 6).Draw(t, "depth"))
+		var e bx.Expr
+		if rapid.IntRange(0, 9).Draw(t, "long") == 0 {
+			e = gen.FreeLong(t) // deep right-nested trees: level x len(indent) grows large
+		} else {
+			e = gen.FreeExpr(t, rapid.IntRange(1, 6).Draw(t, "depth"))
+		}
 		rend := bx.NewRenderer(chooser(t))
 		rend.MaxParen = 2
+		if bx.Depth(e) > 12 {
+			rend.MaxParen = 0 // every parenthesis level multiplies the parse cost of what it encloses by 4
+		}
 		text, _ := rend.Render(e)
 		c := &c19Case{Text: []byte(text), TextQ: strconv.QuoteToASCII(text), Indent: c19Indents[rapid.IntRange(0, len(c19Indents)-1).Draw(t, "indent")],
 			Level: rapid.IntRange(0, 4).Draw(t, "level")}
